@@ -271,6 +271,9 @@ def gen_history(seed, wl, cfg=None):
             'layout': gen_layout(rng),
             'rollover': rng.random() < 0.25,
             'clock_start': 730000 + rng.randrange(15000),
+            # every read of a clock advances simulated time by this many seconds:
+            # from a fast machine to one that is paused for most of a minute
+            'clock_tick': rng.choice([0.0001, 0.001, 0.05, 2.0, 45.0]),
             'filelayer': True, 'clock': True, 'probe': True}
     if rng.random() < 0.5:
         # the process environment is not input: HOME with decoy configuration
@@ -281,6 +284,9 @@ def gen_history(seed, wl, cfg=None):
                        'PROPKA_PARAMETERS': '/nonexistent/propka.cfg',
                        'PROPKA_CFG': 'decoy', 'PROPKA_OPTIONS': '-d -k',
                        'COLUMNS': rng.choice(['40', '200'])}
+        opt = rng.choice(['', '', '1', '2'])
+        if opt:
+            mode['env']['PYTHONOPTIMIZE'] = opt     # python -O / -OO: asserts stripped
     if arm == 'native' and rng.random() < 0.35:
         mode['malloc'] = True      # PYTHONMALLOC=malloc: another real allocator, other address patterns
     if arm == 'bare':
